@@ -24,6 +24,7 @@ class PdoDevice:
         self.log = []                    # accepted writes (index, sub, value)
         self.refused = []                # refused writes (index, sub, value, reason)
         self.abort_cls = None            # exception class to raise (set by the harness)
+        self.busy = False                # True: the device refuses every write to the mapping object (wrong NMT state)
 
     def valid(self):
         return (self.com[1] & VALID_BIT) == 0
@@ -65,6 +66,8 @@ class PdoDevice:
         if index == self.mi:
             if not 0 <= sub < len(self.map):
                 raise self.abort_cls(0x06090011)
+            if self.busy:
+                self._refuse(index, sub, v, "mapping not writable in the present device state")
             if bool(self.valid()):
                 self._refuse(index, sub, v, "mapping written while the PDO is valid")
             if sub == 0:
